@@ -43,6 +43,9 @@ func runC11(c *core.Ctx) {
 	ruleCallWaits(c, a)
 	c.Doc("C11.subscriptions", "Subscribe closes events once per exit; OnDisconnect registers the callback as closer", 3)
 	ruleSubscriptionsClose(c, a)
+	// the typed subscription channels of the generated proxies end too (rule shared with C13)
+	c.Doc("C13.forwarding", "one forwarding goroutine per subscription, no go in the loop, channel closed once per exit", 6)
+	ruleForwarders(c, a)
 }
 
 func ruleReadErrorCloses(c *core.Ctx, a *epAnchors) {
